@@ -61,7 +61,7 @@ static Spec gen_spec(Rng& r, uint64_t maxlog, uint32_t fnmask) {
   s.s1 = r.below(4); s.s2 = r.below(4); s.nrows = 1 + r.below(3); s.ncols = 1 + r.below(3);
   s.mtype = (int)(r.next() & 1);
   s.dseed = r.next();
-  if (s.fn >= NSIMPLE && s.logm > 11) s.logm = 11;
+  if (s.fn >= NSIMPLE && s.logm > (s.fn == M_NORM ? 13u : 11u)) s.logm = s.fn == M_NORM ? 13 : 11;  // normalisation up to N=8192 (cache-blocked code paths)
   if (s.fn >= NSIMPLE && s.logm < 1) s.logm = 1;  // module N = 2^logm >= 2
   return s;
 }
